@@ -24,6 +24,12 @@ def bits(x):
     return struct.unpack('<q', struct.pack('<d', float(x)))[0]
 
 
+def sbits(x):
+    """order-preserving integer image of any finite double"""
+    x = float(x)
+    return bits(x) if x >= 0.0 else -bits(-x)
+
+
 def C2(p):
     return Coordinate(p[0] / 2, p[1] / 2)      # harness points are doubled integers: half-grid
 
@@ -192,6 +198,15 @@ def main():
             ctr = rand_pts(rng, 1)[0]
             W = GeoRing(C2(ctr), rng.choice([0, 500, 3000]) + 100, rng.choice([4000, 9000, 60000]), angle_min=rng.choice([5, 40, 200]), angle_max=rng.choice([250, 300, 355]))
             far.append(('wedge', W, W.bounding_coords()))
+            # the bounds of a wedge are the min/max of its sampled boundary (order-preserving integer images of the
+            # doubles: min/max only look at the order).  Wedges across +-180 are finding D21 (fixed replay below).
+            wv = [(c.longitude, c.latitude) for c in W.bounding_coords()]
+            if max(x for x, _ in wv) - min(x for x, _ in wv) <= 180:
+                wb = guarded(lambda: W.bounds)
+                add(f'KBnd {listlit([f"({zlit(sbits(x))}, {zlit(sbits(y))})" for x, y in wv])} '
+                    f'{reslit((wb[0], tuple(sbits(v) for v in wb[1])) if wb[0] == "Ok" else wb, bndlit)}',
+                    {'k': 'bounds', 'kind': 'wedge', 'center': ctr, 'angles': [W.angle_min, W.angle_max], 'radii': [W.inner_radius, W.outer_radius]})
+                ck.count('bounds:wedge')
         for kind, S, vs in far:
             cc = S.circumscribing_circle()
             cen = S.centroid
